@@ -63,6 +63,13 @@ def sym_error(be, reg, pre):
     for vname, dv, fields in rae.variants:
         if vname == "DbError":
             epl[dv] = Tup([db, Opaque("msg")])
+        elif vname == "BrokenConnectionError":
+            # the wrapped reason (Arc<dyn Error>): any BrokenConnectionErrorKind, or some other error type
+            bk = reg.get("BrokenConnectionErrorKind")
+            kd = z3.BitVec("broken_kind", 64)
+            pre.append(z3.Or([kd == v for _, v, _ in bk.variants]))
+            kind = enum_value(be, bk, kd, {v: Tup([Opaque(f) for f in fs]) for _, v, fs in bk.variants if fs})
+            epl[dv] = Tup([Tup([kind, Bool(z3.Bool("broken_is_kind"))], "BrokenConnectionError")])
         elif fields:
             epl[dv] = Tup([Opaque(f) for f in fields])
     return enum_value(be, rae, ed, epl), ed, dd
@@ -88,10 +95,19 @@ def models():
     def level_le(it, p, callee, args):
         return Bool(z3.BoolVal(False))
 
+    def broken_downcast(it, p, callee, args):
+        """BrokenConnectionError::downcast_ref::<BrokenConnectionErrorKind>: Some(&kind) iff the wrapped error is of that type"""
+        e = sm.deref(args[0])
+        be = it.be
+        d = be.ite(e.f[1].t, be.const(1, 64), be.const(0, 64))
+        inner = Ref(Cell(e.f[0]))
+        return Enum(Int(d, 64, True), {1: Tup([inner])}, mir.ENUM_VARIANTS["Option"], "Option")
+
     return {r"^<&i32 as PartialOrd>::(ge|gt|le|lt)$": cmp_ref_i32,
             r"^<WriteType as PartialEq>::eq$": enum_eq("Other"),
             r"^<Consistency as PartialEq>::eq$": enum_eq(None),
             r"^<Level as PartialOrd<LevelFilter>>::le$": level_le,
+            r"^BrokenConnectionError::downcast_ref::<BrokenConnectionErrorKind>$": broken_downcast,
             "__consts__": {"tracing::Level::DEBUG": Opaque("level"), "tracing::level_filters::STATIC_MAX_LEVEL": Opaque("lf")}}
 
 
@@ -136,7 +152,7 @@ def policy(ctx, mf, reg, pol):
          "scalar fields symbolic (i32 counts, bools, all WriteTypes, all consistencies); is_idempotent symbolic; request consistency over all 11 levels")
     OUT = "the executor honouring the decision (async run_request_speculative_fiber / pager): 'the driver sends exactly the attempts the policy decided' is not decided"
     inputs = [ek, dk, idem] + flags + [z3.BitVec(n, 32) for n in ('db_received', 'db_required', 'db_alive', 'db_numfailures')] + \
-             [z3.Bool('db_data_present'), z3.BitVec('db_wt', 64), z3.BitVec('db_cons', 64), z3.BitVec('req_cons', 64)]
+             [z3.Bool('db_data_present'), z3.BitVec('db_wt', 64), z3.BitVec('db_cons', 64), z3.BitVec('req_cons', 64), z3.BitVec('broken_kind', 64), z3.Bool('broken_is_kind')]
     bad = [p for p in paths if p.outcome[0] != "return"]
     good = [p for p in paths if p.outcome[0] == "return"]
     ctx.prove(f"c06_{pol}_no_panic", pre, z3.Not(z3.Or([z3.And(p.pc) for p in bad])) if bad else z3.BoolVal(True), inputs=inputs,
